@@ -79,8 +79,16 @@ impl Pattern {
     /// Creates `Pattern` instance from raw regular expression. Supports PCRE syntax.
     /// Allows to specify case sensitivity
     pub fn regex_with(pattern: &str, opts: &PatternOpts) -> Result<Pattern, PatternError> {
-        let pattern = pattern.trim_start_matches('^');
-        let pattern = pattern.trim_end_matches('$');
+        let mut pattern = pattern.trim_start_matches('^');
+        // strip the end anchor, but not an escaped dollar sign
+        while pattern.ends_with('$') {
+            let unanchored = &pattern[..pattern.len() - 1];
+            let backslashes = unanchored.chars().rev().take_while(|c| *c == '\\').count();
+            if backslashes % 2 == 1 {
+                break;
+            }
+            pattern = unanchored;
+        }
         let pattern = pattern.to_string();
 
         let anchored_regex = "^".to_string() + &pattern + "$";
